@@ -245,6 +245,21 @@ def t_limits(ctx):
         for nins in ([1, 2, 3], [3, 1, 2], [1, 1, 3, 2]):
             ctx.run({'nins': nins})
         ctx.exhaustive.append('transactions of a user subclass with content-free == / hash(), 1..3 inputs in three orders, CHECKSIG and CHECKMULTISIG at the last input')
+    if ctx.shard == 1 % ctx.nshards:
+        # stack items PRODUCED by the interpreter (arithmetic results that need a sign byte: 128, 255, 32768, -128 ...; SIZE and
+        # DEPTH results) consumed as public key, as signature, as multisig key / signature and as hash input: whatever
+        # representation the interpreter keeps numbers in must survive being handed to the signature and hash code
+        pk = '21' + '0279be667ef9dcbbac55a06295ce870b07029bfcdb2dce28d959f2815b16f81798'
+        sig = '09' + '300602010102010101'
+        makers = ['017f8b', '02ff008b', '02ff7f8b', '03ffff008b', '017f8b8f', '02ff7f8b8f', '0180' + '8f', '4c80' + '11' * 128 + '82',
+                  '51' * 128 + '74', '02ff00' + '02ff00' + '93', '020001' + '8c']
+        for mk_ in makers:
+            for fb in (0, 1, 3):
+                for spk in (mk_ + 'ac', sig + mk_ + 'ac', mk_ + pk + 'ac', '00' + mk_ + '51' + pk + '51ae', '00' + sig + '51' + mk_ + '51ae',
+                            mk_ + 'a9', mk_ + 'a6', mk_ + 'aa', mk_ + 'a7', mk_ + 'a8', mk_ + '76' + 'ac', mk_ + pk + 'ad'):
+                    ctx.run({'fb': fb, 'variant': 33, 'mode': 0, 'idxsel': 0, 'a': sig, 'b': spk})
+                    ctx.run({'fb': fb, 'variant': 1, 'mode': 3, 'idxsel': 0, 'a': '51', 'b': spk})
+        ctx.exhaustive.append('11 interpreter-produced numbers (sign-byte cases, SIZE, DEPTH) consumed as key / signature / multisig member / hash input')
     k = 0
     for n in (75, 76, 255, 256, 519, 520, 521, 522, 600, 4000):
         data = bytes((n + i) % 251 for i in range(n))
